@@ -241,6 +241,29 @@ async fn client<T: Transport + 'static>(
 }
 
 pub fn run_case(case: &Case) -> Result<Outcome, String> {
+    let c = case.clone();
+    let cpu0 = cpu_ns();
+    let t0 = Instant::now();
+    match crate::core::with_watchdog(bound() * 4 + Duration::from_secs(5), move || run_case_inner(&c)) {
+        Some(r) => r,
+        None => {
+            // the client never even yielded to its own timeouts: it loops inside one poll
+            let wall = t0.elapsed();
+            Ok(Outcome {
+                ops: vec![(
+                    "session (the client thread never returned)".into(),
+                    false,
+                    "PENDING".into(),
+                    wall.as_millis() as u64,
+                )],
+                cpu_fraction: (cpu_ns() - cpu0) as f64 / wall.as_nanos().max(1) as f64,
+                window_ms: wall.as_millis() as u64,
+            })
+        }
+    }
+}
+
+fn run_case_inner(case: &Case) -> Result<Outcome, String> {
     let rt = tokio::runtime::Builder::new_multi_thread()
         .worker_threads(2)
         .enable_all()
@@ -511,6 +534,9 @@ pub fn property() -> Property {
     Property {
         id: "C07",
         level: "fault_enumeration",
-        parts: vec![Box::new(PropPart(C07))],
+        parts: vec![
+            Box::new(PropPart(C07)),
+            Box::new(PropPart(crate::props::bin_parts::C07Agent)),
+        ],
     }
 }
